@@ -196,6 +196,8 @@ class Exec:
     def __init__(self, facts, domain):
         self.facts = facts; self.dom = domain
         self.npaths = 0
+        try: domain.ex = self
+        except Exception: pass
 
     # ---- public -------------------------------------------------------------------------------------------------------
     def run(self, fn, args=None, this_path=('this',), state=None):
@@ -208,7 +210,7 @@ class Exec:
         out = []
         for st2, fr2, end in self._walk(fr, st):
             P = Path(); P.events = st2.events; P.decisions = st2.decisions; P.store = st2.store; P.ret = fr2.ret; P.end = end
-            P.unknown_atoms = st2.unknown_atoms; P.asserts = st2.asserts
+            P.unknown_atoms = st2.unknown_atoms; P.asserts = st2.asserts; P.assumed = st2.assumed
             if isinstance(P.ret, Ref) and P.ret.loc[0] == 'l':
                 P.ret_ref = P.ret; P.ret = st2.store.get(P.ret.loc, P.ret)
             out.append(P)
@@ -225,7 +227,7 @@ class Exec:
         out = []
         for st2, fr2, end in self._walk(fr, st):
             P = Path(); P.events = st2.events; P.decisions = st2.decisions; P.store = st2.store; P.end = end
-            P.unknown_atoms = st2.unknown_atoms
+            P.unknown_atoms = st2.unknown_atoms; P.assumed = st2.assumed
             r = fr2.ret
             if isinstance(r, Ref): r = self.read(r.loc, st2)
             P.ret = r
@@ -283,6 +285,9 @@ class Exec:
             if B.cond is not None and len(succs) == 2:
                 self._st = st
                 v = fr.vals.get(B.cond.id)
+                if B.cond.k == 'binop' and B.cond.op in ('&&', '||'):
+                    v = None      # clang branches on `(a && b)` as the left operand of an enclosing && / ||: it is not an element of this
+                                  # block, so a value cached by an earlier loop iteration would be stale; its operands are fresh
                 if v is None: v = self._eval(B.cond, st, fr)
                 if isinstance(v, Ref): v = self.read(v.loc, st, B.cond)
                 v = self._truth(v)
@@ -302,6 +307,10 @@ class Exec:
                     st2 = st.clone() if len(targets) > 1 else st
                     fr2 = self._clone_frame(fr, dict(fr.vals)) if len(targets) > 1 else fr
                     st2.decisions.append((B.cond, val, how))
+                    if how == 'fork' and getattr(self.dom, 'correlate_unknowns', False) and isinstance(v, Unknown):
+                        # remember the outcome: the same atom read again on this path (same tag = same state epoch) agrees
+                        if isinstance(v.tag, tuple) and len(v.tag) == 2 and v.tag[0] == 'not': st2.assumed[v.tag[1]] = not val
+                        else: st2.assumed[v.tag] = val
                     st2.events.append(('branch', B.cond, (val, how, fr.fn.name)))
                     fr2.vals[B.cond.id] = val
                     vis = dict(visits); vis[tgt] = vis.get(tgt, 0) + 1
@@ -371,6 +380,7 @@ class Exec:
         return None
 
     def read(self, loc, st, node=None):
+        self._st = st
         if loc in st.store: return st.store[loc]
         # record field of a record stored one level up
         if len(loc) >= 3 and loc[0] in ('l',) and len(loc) > 3:
@@ -391,7 +401,8 @@ class Exec:
                         else: ok = False; break
                     if ok: return v
             v = self.dom.init_field(p, node)
-            st.store[loc] = v
+            vol = getattr(self.dom, 'volatile', None)
+            if vol is None or not vol(p): st.store[loc] = v
             return v
         return Unknown('uninit:' + str(loc[-1]))
 
@@ -526,7 +537,7 @@ class Exec:
                 return old if d.get('postfix') else (Ref(loc) if loc else new)
             if op == '!':
                 v = self._truth(self._rvalue(s, st, fr))
-                return (not v) if isinstance(v, bool) else Unknown(('not', repr(v)))
+                return (not v) if isinstance(v, bool) else Unknown(('not', v.tag if isinstance(v, Unknown) else repr(v)))
             if op == '-':
                 v = as_lin(self._rvalue(s, st, fr)); return -v if v is not None else Unknown('neg')
             if op == '&':
@@ -667,6 +678,7 @@ class Exec:
         if isinstance(v, Unknown):
             st = getattr(self, '_st', None)
             if st is not None and v.tag in st.assumed: return st.assumed[v.tag]
+            if st is not None and isinstance(v.tag, tuple) and len(v.tag) == 2 and v.tag[0] == 'not' and v.tag[1] in st.assumed: return not st.assumed[v.tag[1]]
         return v
 
     def assume(self, v, truth, st):
